@@ -186,6 +186,10 @@ pub enum Picked {
     Nothing,
 }
 
+/// Open while the scheduler (or the stepping future) has the floor; closed while a tokio task is
+/// being polled. Fresh blocking-pool threads wait for it before running their first job.
+pub static BLOCKING_GATE: std::sync::atomic::AtomicBool = std::sync::atomic::AtomicBool::new(true);
+
 pub struct World {
     pub ctrl: Arc<SimCtrl>,
     pub rt: Option<tokio::runtime::Runtime>,
@@ -211,17 +215,7 @@ impl World {
         let dir = scratch_root().join(format!("{}-{}", run_tag, n));
         let _ = std::fs::remove_dir_all(&dir);
         std::fs::create_dir_all(&dir).expect("create scratch dir");
-        // event_interval(1): the stepping future regains control after every single task poll, so
-        // a blocking-pool job (cacache file IO) is always waited for before any other task runs;
-        // global_queue_interval(1): the task woken by that job is the next one to run. Together
-        // they make spawn_blocking behave like synchronous IO, which keeps steps deterministic.
-        let rt = tokio::runtime::Builder::new_current_thread()
-            .enable_all()
-            .event_interval(1)
-            .global_queue_interval(1)
-            .start_paused(true)
-            .build()
-            .expect("runtime");
+        let rt = Self::build_runtime();
         World {
             ctrl,
             rt: Some(rt),
@@ -235,10 +229,21 @@ impl World {
     }
 
     pub fn build_runtime() -> tokio::runtime::Runtime {
+        // event_interval(1): the stepping future regains control after every single task poll.
+        // Blocking-pool jobs (cacache / tokio::fs file IO) are made deterministic by a gate:
+        // every job gets a fresh thread (keep-alive 1 ns) whose start waits until the stepping
+        // future has the floor again, so the task that spawned the job always sees it pending,
+        // and the stepping future then waits for the pool to drain before any other task runs.
         tokio::runtime::Builder::new_current_thread()
             .enable_all()
             .event_interval(1)
             .global_queue_interval(1)
+            .thread_keep_alive(Duration::from_nanos(1))
+            .on_thread_start(|| {
+                while !BLOCKING_GATE.load(std::sync::atomic::Ordering::Acquire) {
+                    std::thread::yield_now();
+                }
+            })
             .start_paused(true)
             .build()
             .expect("runtime")
@@ -330,7 +335,23 @@ impl World {
     }
 
     pub fn wait(&self) -> R<()> {
-        self.ctrl.wait_quiescent().map_err(Stop::Harness)
+        self.ctrl.wait_quiescent().map_err(Stop::Harness)?;
+        // a command call that has just ended on a blocking-pool thread wakes the task awaiting it
+        // a moment later: wait until the pool is quiet, so that wake is visible to the next decision
+        if let Some(rt) = self.rt.as_ref() {
+            let m = rt.metrics();
+            let t0 = std::time::Instant::now();
+            loop {
+                if m.num_blocking_threads() <= self.ctrl.blocking_parked() && m.blocking_queue_depth() == 0 {
+                    break;
+                }
+                std::thread::yield_now();
+                if t0.elapsed() > Duration::from_secs(30) {
+                    return harness("blocking pool busy for 30s");
+                }
+            }
+        }
+        Ok(())
     }
 
     pub fn tokio_runnable(&self) -> bool {
@@ -346,20 +367,18 @@ impl World {
         let res: Result<(), String> = rt.block_on(async {
             let t0 = std::time::Instant::now();
             loop {
+                BLOCKING_GATE.store(false, std::sync::atomic::Ordering::Release);
                 tokio::task::yield_now().await;
-                // order matters: a blocking-pool job wakes its awaiting task BEFORE its thread
-                // is counted idle again, so look at the pool first and at the queues afterwards
-                // wait for blocking-pool jobs (file IO of cacache) right here, without letting any
-                // other task run meanwhile: real threads, but nothing else moves until they are done
+                BLOCKING_GATE.store(true, std::sync::atomic::Ordering::Release);
+                // wait for the blocking pool to drain (threads exit right after their job) before
+                // any other task runs; command calls parked on pool threads are accounted for
                 loop {
-                    let busy = m.num_blocking_threads().saturating_sub(m.num_idle_blocking_threads());
-                    let pool_quiet = (busy == 0 || busy <= ctrl.blocking_parked()) && m.blocking_queue_depth() == 0;
-                    if pool_quiet {
+                    if m.num_blocking_threads() <= ctrl.blocking_parked() && m.blocking_queue_depth() == 0 {
                         break;
                     }
                     std::thread::yield_now();
-                    if t0.elapsed() > Duration::from_secs(30) {
-                        return Err("tokio step: blocking pool busy for 30s".to_string());
+                    if t0.elapsed() > Duration::from_secs(60) {
+                        return Err("tokio step: blocking pool busy for 60s".to_string());
                     }
                 }
                 if m.global_queue_depth() == 0 && m.worker_local_queue_depth(0) == 0 {
@@ -409,7 +428,11 @@ impl World {
         let i = chooser.choose(&labels);
         self.decisions += 1;
         let label = labels[i].clone();
-        self.log(format!("d{} {}", self.decisions, label));
+        if std::env::var("XS_SIM_TRACE_DETAIL").is_ok() && i < enabled.len() {
+            self.log(format!("d{} {} detail={:x}", self.decisions, label, enabled[i].detail));
+        } else {
+            self.log(format!("d{} {}", self.decisions, label));
+        }
 
         if i >= extra_base {
             return Ok(Picked::Extra(i - extra_base));
